@@ -164,6 +164,8 @@ class FakeThread:
 
 
 class Env:
+    __symex_opaque__ = True
+
     """Base environment: clock tokens, timegm as an uninterpreted function of the token, logging
     helpers silenced."""
 
